@@ -4,12 +4,15 @@ Code under test: androguard/core/api_specific_resources/__init__.py (load_permis
 androguard/core/androconf.py (load_api_specific_resource_module, CONF['DEFAULT_API']).
 
 Space
-  shipped data : both resource names x every API level -5..100 x {int, str} through load_api_specific_resource_module,
+  shipped data : both resource names x every API level -5..100 x SPELLINGS through load_api_specific_resource_module,
                  plus the two loaders called directly (load_permissions for 'permissions' and 'groups').
   synthetic    : every non-empty subset of the 5-level universe {1..5} installed as the data directory (the module's
                  `__file__` is pointed at a generated directory holding aosp_permissions/ and api_permission_mappings/
-                 with one distinguishable JSON per level) x CONF['DEFAULT_API'] in {1..5} x request -1..7 x {int, str}
+                 with one distinguishable JSON per level) x CONF['DEFAULT_API'] in {1..5} x request -1..7 x SPELLINGS
                  x both resource names, plus the direct loader calls.
+SPELLINGS: int, canonical str, and the non-canonical strings that int() maps to the same level: zero padded "%02d" /
+"%03d" and "+%d" (levels >= 0), leading space, trailing space, trailing newline.  A string that int() maps to level L
+is a request for level L.  Strings that int() rejects ("7.0", "Q") are code names and not part of the space.
 Reference (the statement): permissions -> the requested level if available, else the highest available level below
 it, else (outside the available range) the lowest / highest available level; mappings -> the requested level if
 available, else DEFAULT_API.  The returned dict must equal the JSON content of that level's file.
@@ -33,10 +36,25 @@ UNIVERSE = [1, 2, 3, 4, 5]
 SYN_REQ = list(range(-1, 8))
 SHIPPED_REQ = list(range(-5, 101))
 RES = ["aosp_permissions", "api_permission_mappings"]
-RULE = ("shipped data: 2 resources x levels -5..100 x {int,str} via load_api_specific_resource_module and via the loaders "
+# how a level is written: int, canonical str, and the non-canonical spellings that int() accepts
+TYPES = ["int", "str", "pad2", "pad3", "plus", "lsp", "tsp", "nl"]
+
+
+def spell(req, typ):
+    """The argument for level `req` in spelling `typ`; None where the spelling does not exist or is the canonical one."""
+    if typ == "int":
+        return req
+    if typ == "str":
+        return str(req)
+    if typ in ("pad2", "pad3", "plus") and req < 0:
+        return None
+    v = {"pad2": "%02d", "pad3": "%03d", "plus": "+%d", "lsp": " %d", "tsp": "%d ", "nl": "%d\n"}[typ] % req
+    assert int(v) == req
+    return None if v == str(req) else v
+RULE = ("shipped data: 2 resources x levels -5..100 x {int, str, 6 non-canonical numeric spellings} via load_api_specific_resource_module and via the loaders "
         "directly; synthetic: all 31 non-empty subsets of {1..5} as data directory x DEFAULT_API in 1..5 x requests -1..7 x "
-        "{int,str} x 2 resources; non-trivial = a fallback is involved (requested level not available) or the level is "
-        "given as str; distinct by (universe, default, resource, entry point, request, type)")
+        "the same spellings x 2 resources; non-trivial = a fallback is involved (requested level not available) or the level is "
+        "given as a string; distinct by (universe, default, resource, entry point, request, type)")
 ASSUMPTIONS = [
     "the loaders locate their data through the module global __file__ of androguard.core.api_specific_resources "
     "(pointed at a generated directory for the synthetic universes; finalize checks synthetic content was returned)",
@@ -46,7 +64,7 @@ ASSUMPTIONS = [
 MANIFEST = {
     "engine": "E1-product",
     "technique": "exhaustive enumeration of requests x available-level sets against a reference selection rule",
-    "text": "Every API level from -5 to 100, as int and as str, for both resource kinds on the shipped data, and every "
+    "text": "Every API level from -5 to 100, as int, as str and in six non-canonical numeric spellings, for both resource kinds on the shipped data, and every "
             "request -1..7 against every non-empty subset of a 5-level synthetic data directory with every default level, "
             "is loaded through the real functions; the returned dict is compared with the JSON file that the documented "
             "fallback rule selects. Complete for the stated space; the synthetic subsets cover every arrangement of "
@@ -57,11 +75,13 @@ MANIFEST = {
 
 
 def space(ctx):
-    return {"shipped": {"resources": RES, "requests": [SHIPPED_REQ[0], SHIPPED_REQ[-1]], "types": ["int", "str"],
+    return {"spellings": {"int": 7, "str": "7", "pad2": "07", "pad3": "007", "plus": "+7", "lsp": " 7", "tsp": "7 ", "nl": "7\n",
+                          "note": "pad*/plus only for levels >= 0; a spelling equal to the canonical str is not repeated"},
+            "shipped": {"resources": RES, "requests": [SHIPPED_REQ[0], SHIPPED_REQ[-1]], "types": TYPES,
                         "entry_points": ["load_api_specific_resource_module", "load_permissions(permissions|groups)",
                                          "load_permission_mappings"]},
             "synthetic": {"universe": UNIVERSE, "subsets": 2 ** len(UNIVERSE) - 1, "default_api": UNIVERSE,
-                          "requests": SYN_REQ, "types": ["int", "str"], "resources": RES}}
+                          "requests": SYN_REQ, "types": TYPES, "resources": RES}}
 
 
 def shards(ctx):
@@ -143,13 +163,15 @@ def cases(universe, res_filter=None):
             continue
         for default in defaults:
             for req in reqs:
-                for typ in ("int", "str"):
-                    yield ("module", res, default, req, typ)
+                for typ in TYPES:
+                    if spell(req, typ) is not None:
+                        yield ("module", res, default, req, typ)
         vias = ["load_permissions:permissions", "load_permissions:groups"] if res == RES[0] else ["load_permission_mappings"]
         for via in vias:
             for req in reqs:
-                for typ in ("int", "str"):
-                    yield (via, res, defaults[0], req, typ)
+                for typ in TYPES:
+                    if spell(req, typ) is not None:
+                        yield (via, res, defaults[0], req, typ)
 
 
 def evaluate(env, case):
@@ -159,7 +181,7 @@ def evaluate(env, case):
     if default is not None:
         conf["DEFAULT_API"] = default
     dflt = conf["DEFAULT_API"]
-    arg = req if typ == "int" else str(req)
+    arg = spell(req, typ)
     # ---- reference
     if res == RES[0]:
         level, pos = select(set(env.perm), req)
@@ -192,7 +214,8 @@ def evaluate(env, case):
     if via == "module" and typ == "int" and req == 0:
         key = "api=0:int"
     else:
-        key = "%s:%s:%s%s" % (res, pos, typ, "" if via == "module" else ":direct")
+        key = "%s:%s:%s%s" % (res, pos, typ if typ in ("int", "str") else "str-noncanonical",
+                              "" if via == "module" else ":direct")
     which = "?"
     if isinstance(got, dict):
         for lv, p in sorted((env.perm if res == RES[0] else env.maps).items()):
@@ -222,7 +245,7 @@ def run_shard(ctx, shard):
         for case in cases(universe, shard[1] if shard[0] == "shipped" else None):
             via, res, default, req, typ = case
             pos, level, key, msg = evaluate(env, case)
-            nontrivial = (universe, case) if (pos != "exact" or typ == "str") else None
+            nontrivial = (universe, case) if (pos != "exact" or typ != "int") else None
             acc.case(nontrivial=nontrivial, outcome=(res, via, pos, level if universe != "shipped" else None))
             if pos in ("default-missing", "missing-direct"):
                 acc.count("not_judged_" + pos)
@@ -248,9 +271,7 @@ def replay(ctx, w):
 
 
 def finalize(ctx, acc):
-    n_ship = sum((len(SHIPPED_REQ) * 2) * (1 + (2 if r == RES[0] else 1)) for r in RES)
-    per_subset = sum(len(SYN_REQ) * 2 * (len(UNIVERSE) + (2 if r == RES[0] else 1)) for r in RES)
-    want = n_ship + per_subset * (2 ** len(UNIVERSE) - 1)
+    want = sum(1 for _ in cases("shipped")) + (2 ** len(UNIVERSE) - 1) * sum(1 for _ in cases(1))
     if acc.n != want and not acc.harness_errors:
         acc.harness_error("evaluations %d != size of the stated space %d" % (acc.n, want))
     if acc.extra.get("synthetic_content_compared", 0) < 5000:
